@@ -241,6 +241,23 @@ class Real:
             await (usim.time + hold)
             self.watch_log.append((k, 'held', usim.time.now, None))
 
+    async def impatient(self, k, date, kind):
+        """an activity that waits for the event for a while and gives up at `date` (left by an until-block / cancelled):
+        an abandoned wait handles nothing - a failure of the event after that date is as unhandled as without it"""
+        async def waiter():
+            try:
+                await self.events[k]
+            except SpyErr:
+                pass
+        if kind == 'until':
+            async with usim.until(usim.time >= date):
+                await waiter()
+        else:
+            async with usim.Scope() as scope:
+                task = scope.do(waiter())
+                await (usim.time >= date)
+                task.cancel()
+
     async def careless_host(self, k):
         """an activity of its own scope that waits for the event and dies of its failure"""
         async def careless():
@@ -289,6 +306,8 @@ def run_embedded(prog):
                 scope.do(r.watcher(k, prog.get('watch_hold', 0)), volatile=True)
             for k in prog.get('careless', ()):
                 scope.do(r.careless_host(k), volatile=True)
+            for (k, date, kind) in prog.get('impatient', ()):
+                scope.do(r.impatient(k, date, kind), volatile=True)
             u = r.until_arg()
             await env.until(u)
             res['now_inside'] = env.now
